@@ -61,7 +61,8 @@ class Rig:
         self.data = os.path.join(root, "data")
         self.refdata = os.path.join(root, "refdata")
         self.srcdir = os.path.join(root, "src")
-        for d in (self.data, self.refdata, self.srcdir):
+        self.probedata = os.path.join(root, "probedata")
+        for d in (self.data, self.refdata, self.srcdir, self.probedata):
             os.makedirs(d)
         self.caps_ok = caps.drop_dac_caps()
         os.chdir(self.srcdir)
@@ -74,6 +75,7 @@ class Rig:
         self.xsh.aliases["rec"] = self._rec
         self._ref = {}
         self._sim = {}
+        self._disc = {}
         self.threads0 = threading.active_count()
         self.caps_ok = self.caps_ok and self._perm_probe()
 
@@ -118,17 +120,30 @@ class Rig:
             return None
         return t
 
-    def entry_path(self, kind, text=None, data=None):
-        """Cache file the implementation uses for the script / for a code string."""
-        env = self.xsh.env
-        old = env["XONSH_DATA_DIR"]
-        env["XONSH_DATA_DIR"] = data or self.data
-        try:
-            if kind == "script":
-                return self.cc.get_cache_filename(self.SRC, code=False)
-            return self.cc.get_cache_filename(self.cc.code_cache_name(text), code=True)
-        finally:
-            env["XONSH_DATA_DIR"] = old
+    def discover(self, kind, text=None, mode="exec"):
+        """Where does the implementation keep the entry of this unit (the script / a code string run in
+        a mode)?  Found BY EFFECT: one caching run (every switch on, fresh namespace) into an empty probe
+        data directory; the one file that appears, relative to the data directory, is the answer.  The
+        harness never re-implements the naming scheme, so two units share an entry exactly when the
+        implementation makes them share a file."""
+        key = (kind, text if kind == "code" else None, mode if kind == "code" else "exec")
+        if key not in self._disc:
+            if kind == "script" and not os.path.exists(self.src_path()):
+                self.write_source(BODIES[0], 10)
+            self.wipe(self.probedata)
+            r = self._run(self.probedata, kind, text, ALL_ON, "fresh", mode if kind == "code" else "exec")
+            found = []
+            for dp, _dns, fns in os.walk(self.probedata):
+                for n in fns:
+                    found.append(os.path.relpath(os.path.join(dp, n), self.probedata))
+            self.wipe(self.probedata)
+            if len(found) != 1:
+                raise common.ToolError(f"a caching run of {key} (all switches on) wrote {sorted(found)} instead of exactly one cache file ({r}): the check would be vacuous")
+            self._disc[key] = found[0]
+        return self._disc[key]
+
+    def entry_file(self, kind, text=None, mode="exec"):
+        return os.path.join(self.data, self.discover(kind, text, mode))
 
     def wipe(self, d):
         self.make_writable(d)
